@@ -180,7 +180,7 @@ var charset = []string{"-", "%", "*", ";", ":", " ", "a", "B", "1", "\r", "\n"}
 func TestC16(t *testing.T) {
 	s := explore.NewSuite(t, "C16", "exploration",
 		"(parse) every string of length <= L (5 quick, 6 thorough) over the 11-symbol alphabet {- % * ; : SP a B 1 CR LF} through header.ParseHeader: accepted rules must be legal (token name, no CR/LF in value), round-trip through String(), and strings of the strict rule grammar must be accepted with the documented meaning; "+
-			"(apply) every ordered list of <= 3 (quick) / 4 (thorough) rules from a 17-rule alphabet applied to each of 8 header maps (repeated fields, names differing only in case), with rule objects parsed afresh and with rule objects that were already applied to another message, compared step by step with a reference on a case-insensitive multimap; "+
+			"(apply) every ordered list of <= 3 (quick) / 4 (thorough) rules from a 17-rule alphabet applied to each of 8 header maps (repeated fields, names differing only in case), with rule objects parsed afresh and with rule objects that were already applied to another message, compared step by step with a reference on a case-insensitive multimap; (concurrent-messages, Engine T) two messages processed at once, each by one of 6 rules, header/header.go rebuilt with a scheduling point before every statement, every interleaving with at most 2 (quick) / 3 (thorough) preemptions, each message compared with the result of its rule applied alone; "+
 			"(dispatch) every assignment of rule lists to --header/--connect-header/--response-header through the real modifier wiring of command/run x message kind; non-trivial = at least one comparison with the reference was made")
 	s.Assume = []string{"net/http.CanonicalHeaderKey is trusted", "header maps are Go http.Header values; order between differently-spelt keys of one name is not observable"}
 
@@ -354,6 +354,8 @@ func TestC16(t *testing.T) {
 	}
 	s.Add(explore.Scenario{Name: "apply<=3", Tiers: []string{"quick"}, Run: apply(3)})
 	s.Add(explore.Scenario{Name: "apply<=4", Tiers: []string{"thorough"}, Run: apply(4)})
+	s.Add(explore.Scenario{Name: "concurrent-messages", Remote: true, MaxDev: map[string]int{"quick": 2, "thorough": 3},
+		Run: func(x *explore.X) { concurrentRules(t, x) }})
 
 	// (dispatch) through the real wiring in configureHeadersModifiers
 	s.Add(explore.Scenario{Name: "dispatch", Run: func(x *explore.X) {
